@@ -252,6 +252,15 @@ macro_rules! other_targets {
             $t.check("L7 Some(bool) -> T", None, "Option<bool>", from, format!("{b}"), catch(|| Cast::<$T>::cast(Some(b))), &((b as u8) as $T));
         }
         $t.check("L5 None::<bool> -> Option<T>", None, "Option<bool>", &format!("Option<{from}>"), "None".into(), catch(|| Cast::<Option<$T>>::cast(None::<bool>)), &None::<$T>);
+        if from.starts_with('f') {
+            // a null flag is a null number (for integer targets this is the documented panic of none())
+            $t.check("L5 None::<bool> -> float", None, "Option<bool>", from, "None".into(), catch(|| Cast::<$T>::cast(None::<bool>)), &(f64::NAN as $T));
+        }
+        for b in [false, true] {
+            $t.check("L7 Some(bool) -> Option<T>", None, "Option<bool>", &format!("Option<{from}>"), format!("Some({b})"), catch(|| Cast::<Option<$T>>::cast(Some(b))), &Some((b as u8) as $T));
+            $t.check("L7 Some(x) -> Option<bool>", None, &format!("Option<{from}>"), "Option<bool>", format!("Some({})", b as u8), catch(|| Cast::<Option<bool>>::cast(Some((b as u8) as $T))), &Some(b));
+        }
+        $t.check("L5 None -> Option<bool>", None, &format!("Option<{from}>"), "Option<bool>", "None".into(), catch(|| Cast::<Option<bool>>::cast(None::<$T>)), &None::<bool>);
     }};
 }
 
@@ -414,6 +423,16 @@ fn run_all(ctx: &mut Ctx) {
     t.check("L5 NaT -> Option<i64>", None, "Time", "Option<i64>", "NaT".into(), catch(|| Cast::<Option<i64>>::cast(Time::nat())), &None);
     t.check("L5 NaT -> Option<i64>", Some("F21"), "TimeDelta", "Option<i64>", "NaT".into(), catch(|| Cast::<Option<i64>>::cast(TimeDelta::nat())), &None);
     // (Cast<String> for DateTime is bounded by CrDateTime: From<DateTime>, which has no impl: not callable)
+    // bool <-> String
+    for b in [false, true] {
+        t.check("L6 bool -> String", None, "bool", "String", format!("{b}"), catch(|| Cast::<String>::cast(b)), &b.to_string());
+        t.check("L3 String -> bool round trip", None, "String", "bool", format!("{b}"), catch(|| Cast::<bool>::cast(b.to_string())), &b);
+        // F35: Some(b) -> String is the Debug form "Some(true)" instead of the cast of b
+        t.check("L7 Some(bool) -> String", Some("F35"), "Option<bool>", "String", format!("Some({b})"), catch(|| Cast::<String>::cast(Some(b))), &b.to_string());
+    }
+    t.check("L5 None::<bool> -> String", None, "Option<bool>", "String", "None".into(), catch(|| Cast::<String>::cast(None::<bool>)), &"None".to_string());
+    t.check("L5 \"None\" -> Option<bool>", None, "String", "Option<bool>", "\"None\"".into(), catch(|| Cast::<Option<bool>>::cast("None".to_string())), &None::<bool>);
+    t.check("L7 Some(bool) -> bool", None, "Option<bool>", "bool", "Some(true)".into(), catch(|| Cast::<bool>::cast(Some(true))), &true);
     // (L1)-(L3) on every type
     macro_rules! nl {
         ($T:ty, $nullable:expr) => {
